@@ -5,6 +5,8 @@ import (
 	"strings"
 
 	"github.com/evanoberholster/imagemeta/exif2/ifds"
+	"github.com/evanoberholster/imagemeta/exif2/ifds/exififd"
+	"github.com/evanoberholster/imagemeta/exif2/ifds/gpsifd"
 	mkapple "github.com/evanoberholster/imagemeta/exif2/ifds/mknote/apple"
 	mkcanon "github.com/evanoberholster/imagemeta/exif2/ifds/mknote/canon"
 	mknikon "github.com/evanoberholster/imagemeta/exif2/ifds/mknote/nikon"
@@ -27,7 +29,7 @@ const c17Parts = 16
 func (e *C17) ID() string    { return "C17" }
 func (e *C17) Level() string { return "exploration" }
 func (e *C17) Rule() string {
-	return "every result is also kept as returned and re-read after later calls (it must not change); exhaustive enumeration, split in parts: String() (and Extension / TagName / FromString / Identify*) on all 2^8 values of ImageType, IfdType, tag.Type, xmpns.Namespace, xmpns.Name, isobmff.Brand; all 2^16 values of tag.ID, CameraMake, Orientation, Flash, MeteringMode, ExposureMode, ExposureProgram, Compression and of the eight Canon int16 enums (negative half included); IfdType.TagName over all 256 IfdType x all 65536 ids; CameraModel (and the Canon/Apple/Nikon/Sony model types) over [0, 0x60000) plus random uint32 (thorough). Oracle: no panic; each documented value maps to its documented name and every other value to the documented fallback, per tables written in the harness from the doc comments and the Exif/exiftool value lists they cite; FromString(String(v)) == v for documented image types (also by '.'+extension, any case) and IdentifyNamespace(String(ns)) == ns for documented XMP namespace prefixes. Distinct = distinct (type, returned string) pairs observed."
+	return "every result is also kept as returned and re-read after later calls (it must not change); exhaustive enumeration, split in parts: String() (and Extension / TagName / FromString / Identify*) on all 2^8 values of ImageType, IfdType, tag.Type, xmpns.Namespace, xmpns.Name, isobmff.Brand; all 2^16 values of tag.ID, CameraMake, Orientation, Flash, MeteringMode, ExposureMode, ExposureProgram, Compression and of the eight Canon int16 enums (negative half included); IfdType.TagName over all 256 IfdType x all 65536 ids, each compared with the name in the directory's own exported table (root, Exif, GPS, Canon/Nikon/Apple/Sony maker notes; the preview names of SubIfd0-7) and with \"0x%04x\" for every id the directory does not define; the 16-bit types are enumerated ascending and then descending, tag.ID.String must be exactly \"0x%04x\", and every (function, value) call repeated later in the same process must give the answer it gave first; CameraModel (and the Canon/Apple/Nikon/Sony model types) over [0, 0x60000) plus random uint32 (thorough). Oracle: no panic; each documented value maps to its documented name and every other value to the documented fallback, per tables written in the harness from the doc comments and the Exif/exiftool value lists they cite; FromString(String(v)) == v for documented image types (also by '.'+extension, any case) and IdentifyNamespace(String(ns)) == ns for documented XMP namespace prefixes. Distinct = distinct (type, returned string) pairs observed."
 }
 func (e *C17) Assumptions() []string {
 	return []string{"unexported stringers (box types, JPEG markers) are reachable only through logging and are exercised by C15",
@@ -60,7 +62,60 @@ func c17str(c *core.Ctx, typ string, v any, f func() string) (string, bool) {
 	}
 	c.Rec.SigHash(core.HashStr(typ + "|" + s))
 	c17retain(c, typ, v, s)
+	// the same call must give the same answer whenever it is made (a lookup that memoises in a
+	// table shared between values answers according to what was asked before)
+	k := core.HashStr(typ + "|" + fmt.Sprint(v))
+	if h, seen := c17first[k]; seen {
+		if h != core.HashStr(s) {
+			c.Rec.Violation("string:impure:"+typ, fmt.Sprintf("%s(%v) = %q now, and something else when it was first called in this process", typ, v, s), map[string]any{"type": typ, "value": fmt.Sprint(v), "now": s})
+		}
+	} else {
+		if len(c17first) > 1<<21 {
+			c17first = map[uint64]uint64{}
+		}
+		c17first[k] = core.HashStr(s)
+	}
 	return s, true
+}
+
+var c17first = map[uint64]uint64{}
+
+// c17tagName is what IfdType.TagName documents: the name the directory's own table gives the
+// id, the sub-directory names of the preview offsets, and "0x%04x" for every other id.
+func c17tagName(t ifds.IfdType, id tag.ID) string {
+	var tab map[tag.ID]string
+	switch t {
+	case ifds.IFD0, ifds.SubIFD:
+		tab = ifds.RootIfdTagIDMap
+	case ifds.ExifIFD:
+		tab = exififd.TagIDMap
+	case ifds.GPSIFD:
+		tab = gpsifd.TagIDMap
+	case ifds.MkNoteCanonIFD:
+		tab = mkcanon.TagCanonIDMap
+	case ifds.MkNoteNikonIFD:
+		tab = mknikon.TagNikonIDMap
+	case ifds.MkNoteAppleIFD:
+		tab = mkapple.TagAppleIDMap
+	case ifds.MkNoteSonyIFD:
+		tab = mksony.TagSonyIDMap
+	case ifds.SubIfd0, ifds.SubIfd1, ifds.SubIfd2, ifds.SubIfd3, ifds.SubIfd4, ifds.SubIfd5, ifds.SubIfd6, ifds.SubIfd7:
+		switch {
+		case t == ifds.SubIfd2 && id == 0x0111:
+			return "JpgFromRawStart"
+		case t == ifds.SubIfd2 && id == 0x0117:
+			return "JpgFromRawLength"
+		case id == 0x0111:
+			return "PreviewImageStart"
+		case id == 0x0117:
+			return "PreviewImageLength"
+		}
+		tab = ifds.RootIfdTagIDMap
+	}
+	if n, ok := tab[id]; ok {
+		return n
+	}
+	return fmt.Sprintf("0x%04x", uint16(id))
 }
 
 // A returned string must stay what it was: the last 32 results are kept exactly as returned,
@@ -201,7 +256,7 @@ func c17jobs(tier string) []c17job {
 				}
 			}
 			for j := 0; j < 256; j += 17 {
-				_, _ = c17str(c, "xmpns.Property.String", i, xmpns.NewProperty(ns, xmpns.Name(j)).String)
+				_, _ = c17str(c, "xmpns.Property.String", fmt.Sprint(i, "/", j), xmpns.NewProperty(ns, xmpns.Name(j)).String)
 			}
 			_, _ = c17str(c, "isobmff.Brand.String", i, isobmff.Brand(i).String)
 		}
@@ -227,10 +282,20 @@ func c17jobs(tier string) []c17job {
 		}
 		fbUnknown, fbNoFlash, fbNotDef, fbEmpty := "Unknown", "No Flash", "Not Defined", ""
 		mkT, orT, emT, epT := list(makeNames), list(orientationNames), list(expModeNames), list(expProgramNames)
+		// ascending, then descending: the second pass meets whatever state the first left behind
+		var order []int
 		for i := part; i < 65536; i += c17Parts {
+			order = append(order, i)
+		}
+		for k := len(order) - 1; k >= 0; k-- {
+			order = append(order, order[k])
+		}
+		for _, i := range order {
 			u := uint16(i)
 			s16 := int(int16(u))
-			_, _ = c17str(c, "tag.ID.String", i, tag.ID(u).String)
+			if s, ok := c17str(c, "tag.ID.String", i, tag.ID(u).String); ok {
+				c17want(c, "tag.ID.String", i, s, fmt.Sprintf("0x%04x", u))
+			}
 			named("CameraMake.String", i, ifds.CameraMake(u).String, mkT, &fbEmpty)
 			named("Orientation.String", i, meta.Orientation(u).String, orT, &fbUnknown)
 			named("Flash.String", i, meta.Flash(u).String, flashNames, &fbNoFlash)
@@ -267,9 +332,24 @@ func c17jobs(tier string) []c17job {
 				}
 				if s == "" {
 					c.Rec.Violation("name:TagName-empty", fmt.Sprintf("IfdType(%d).TagName(0x%04x) returned an empty string", t, i), nil)
+				} else if want := c17tagName(ft, id); s != want {
+					c.Rec.Violation("name:IfdType.TagName", fmt.Sprintf("IfdType(%d).TagName(0x%04x) = %q, the directory's table and the documented fallback give %q", t, i, s, want), map[string]any{"ifd": t, "id": i, "got": s, "want": want})
 				}
 				if t < 20 && i%64 == part {
 					c.Rec.SigHash(core.HashStr("TagName|" + s))
+				}
+			}
+			c.Rec.Eval(65536 / c17Parts)
+		}
+		// once more in the opposite order, after everything above has been asked
+		for t := 23; t >= 0; t-- {
+			ft := ifds.IfdType(t)
+			for i := 65536 - c17Parts + part; i >= 0; i -= c17Parts {
+				var s string
+				if pk, _, _ := core.Guard(func() { s = ft.TagName(tag.ID(i)) }); !pk {
+					if want := c17tagName(ft, tag.ID(i)); s != want {
+						c.Rec.Violation("name:IfdType.TagName", fmt.Sprintf("second pass: IfdType(%d).TagName(0x%04x) = %q, the directory's table and the documented fallback give %q", t, i, s, want), map[string]any{"ifd": t, "id": i, "got": s, "want": want})
+					}
 				}
 			}
 			c.Rec.Eval(65536 / c17Parts)
